@@ -129,6 +129,7 @@ type explorer struct {
 	ownerC wazero.CompiledModule
 	impC   wazero.CompiledModule
 	replay bool // verbose single-path mode
+	pool   *slabPool
 }
 
 type guest struct {
@@ -144,6 +145,7 @@ type inst struct {
 	mem      api.Memory
 	mi       *wasm.MemoryInstance
 	alloc    *vAlloc
+	expCalls []reCall // Reallocate calls the reference expects so far
 	m        model
 	path     []Op
 	cur      *Op
@@ -224,6 +226,11 @@ func (x *explorer) close() {
 	if x.rt != nil {
 		x.rt.Close(x.ctx)
 	}
+	if x.pool != nil {
+		x.res.Outcomes["allocator:recycled-slabs-handed-out"] += x.pool.Recycled
+		x.pool.release()
+		x.pool = nil
+	}
 }
 
 func newGuest(name string, mod api.Module) *guest {
@@ -236,11 +243,21 @@ func newGuest(name string, mod api.Module) *guest {
 
 // newInst instantiates the module(s) in the initial state.
 func (x *explorer) newInst() *inst {
-	in := &inst{x: x, m: model{pages: x.cfg.Min, bound: x.cfg.Bound(), content: map[uint64]byte{}}}
+	in := &inst{x: x, m: model{pages: x.cfg.Min, bound: x.cfg.GrowBound(), content: map[uint64]byte{}}}
 	ctx := x.ctx
-	if x.cfg.Alloc == "custom" {
-		in.alloc = &vAlloc{}
+	if kind := x.cfg.Alloc; kind != "go" {
+		if kind == "custom" { // replay files written before the allocator family existed
+			kind = "exact"
+		}
+		in.alloc = &vAlloc{kind: kind, refuseAbove: uint64(x.cfg.RefusePages()) * pageSize}
+		if kind == "recycled" {
+			if x.pool == nil {
+				x.pool = newSlabPool()
+			}
+			in.alloc.pool = x.pool
+		}
 		ctx = experimental.WithMemoryAllocator(ctx, in.alloc)
+		in.expCalls = []reCall{{Size: uint64(x.cfg.Min) * pageSize}}
 	}
 	x.res.Instances++
 	om, err := x.rt.InstantiateModule(ctx, x.ownerC, wazero.NewModuleConfig().WithName("owner"))
@@ -272,19 +289,75 @@ func (x *explorer) newInst() *inst {
 func (in *inst) close() {
 	if in.imp != nil {
 		in.imp.mod.Close(in.x.ctx)
+		if in.alloc != nil && len(in.alloc.mems) == 1 {
+			in.eval()
+			if in.alloc.mems[0].freed != 0 {
+				in.viol("allocator:freed-when-importing-module-closes", "closing the IMPORTING module called LinearMemory.Free on the memory owned by the still open defining module")
+			}
+		}
 	}
 	in.owner.mod.Close(in.x.ctx)
 	if in.alloc != nil {
-		in.x.res.Evals++
+		in.eval()
 		if len(in.alloc.contract) > 0 {
 			in.viol("allocator:contract:"+strings.SplitN(in.alloc.contract[0], "(", 2)[0], "wazero broke the MemoryAllocator contract: "+strings.Join(in.alloc.contract, "; "))
 		}
-	}
-	if in.alloc != nil {
+		in.checkAllocator()
+		in.eval()
+		if len(in.alloc.mems) == 1 && in.alloc.mems[0].freed != 1 {
+			in.viol("allocator:free-count", fmt.Sprintf("LinearMemory.Free was called %d times when the modules were closed, reference exactly once", in.alloc.mems[0].freed))
+		}
 		in.alloc.release()
 	}
 	if in.m.pages >= hugePages || in.x.cfg.Huge() {
 		dropPages()
+	}
+}
+
+// checkAllocator: the custom allocator saw exactly what the reference expects — one Allocate with the limits
+// of the configuration, one Reallocate per grow that passes the limit check (with the new size, refused ones
+// included), and its own record of the current size equals the reference size.
+func (in *inst) checkAllocator() {
+	a := in.alloc
+	if a == nil {
+		return
+	}
+	c := in.x.cfg
+	in.eval()
+	wantCap := uint64(c.Min) * pageSize
+	if c.CapMax {
+		wantCap = uint64(c.Bound()) * pageSize
+	}
+	if len(a.allocArgs) != 1 || len(a.mems) != 1 {
+		in.viol("allocator:allocate-count", fmt.Sprintf("Allocate was called %d times for one memory", len(a.allocArgs)))
+		return
+	}
+	if a.allocArgs[0] != [2]uint64{wantCap, uint64(c.Bound()) * pageSize} {
+		in.viol("allocator:allocate-arguments", fmt.Sprintf("Allocate(cap=%d, max=%d), reference (cap=%d, max=%d)", a.allocArgs[0][0], a.allocArgs[0][1], wantCap, uint64(c.Bound())*pageSize))
+	}
+	m := a.mems[0]
+	in.eval()
+	if len(m.calls) != len(in.expCalls) {
+		got := "none"
+		if len(m.calls) > 0 {
+			got = fmt.Sprintf("last Reallocate(%d)", m.calls[len(m.calls)-1].Size)
+		}
+		dir := "missing"
+		if len(m.calls) > len(in.expCalls) {
+			dir = "extra"
+		}
+		in.viol("allocator:reallocate-call-"+dir, fmt.Sprintf("the allocator saw %d Reallocate calls (%s), reference %d: every grow that passes the limit check asks the allocator exactly once", len(m.calls), got, len(in.expCalls)))
+	} else {
+		for i, e := range in.expCalls {
+			if m.calls[i] != e {
+				in.viol("allocator:reallocate-call-differs", fmt.Sprintf("Reallocate call %d was (size=%d refused=%v), reference (size=%d refused=%v)", i, m.calls[i].Size, m.calls[i].Refused, e.Size, e.Refused))
+				break
+			}
+		}
+	}
+	in.eval()
+	if m.recorded() != in.m.size() {
+		in.viol("allocator:recorded-size-differs", fmt.Sprintf("the allocator's record of the current size is %d bytes (last successful Reallocate), reference and Memory size %d", m.recorded(), in.m.size()))
 	}
 }
 
@@ -518,6 +591,7 @@ func (in *inst) checkSizes() {
 		in.viol("impl:buffer-length:mismatch", fmt.Sprintf("len(Buffer)=%d, reference %d bytes", len(in.mi.Buffer), in.m.size()))
 	}
 	keepAlive(in.mi.Buffer)
+	in.checkAllocator()
 }
 
 // zeroProbes are offsets that must read as zero unless the model says otherwise (huge memories only;
@@ -972,6 +1046,11 @@ func (in *inst) apply(op Op, full bool) bool {
 	after := in.m.pages
 	var gotPrev uint32
 	var gotOK bool
+	if in.alloc != nil && op.Delta != 0 && uint64(before)+uint64(op.Delta) <= uint64(in.x.cfg.Bound()) {
+		// passes the limit check: the allocator is asked, and may refuse
+		np := uint64(before) + uint64(op.Delta)
+		in.expCalls = append(in.expCalls, reCall{Size: np * pageSize, Refused: in.x.cfg.RefusePages() != 0 && np > uint64(in.x.cfg.RefusePages())})
+	}
 	in.eval()
 	if full {
 		in.x.res.Transitions++
@@ -1180,7 +1259,7 @@ func (x *explorer) explore() {
 			for _, d := range deltasAt(x.cfg, st.pages) {
 				op := Op{src, d}
 				np := uint64(st.pages) + uint64(d)
-				if d != 0 && np <= uint64(x.cfg.Bound()) {
+				if d != 0 && np <= uint64(x.cfg.GrowBound()) {
 					if x.hugeRealloc(st.cap, uint32(np)) {
 						x.res.out(fmt.Sprintf("huge-realloc-candidate:depth=%d", depth))
 						if !x.allowHugeRealloc(depth, st.pages, op) {
